@@ -64,13 +64,16 @@ pub fn determinism_selftest() -> i32 {
     let ids = ["C03", "C04", "C05", "C06", "C07", "C09", "C11", "C12", "C13", "C15", "C16"];
     let mut bad = 0;
     let mut total_sims = 0usize;
-    for id in ids {
+    let seed0: u64 = std::env::var("VERIF_SEED").ok().and_then(|s| s.parse().ok()).unwrap_or(1);
+    let nseeds: u64 = std::env::var("VERIF_SELFTEST_SEEDS").ok().and_then(|s| s.parse().ok()).unwrap_or(2);
+    for (id, seed) in ids.iter().flat_map(|id| (0..nseeds).map(move |k| (*id, seed0 + k))) {
         let mut outs: Vec<(String, Vec<String>)> = vec![];
         for (label, workers) in [("w1", "1"), ("w4", "4"), ("w16a", "16"), ("w16b", "16")] {
             let o = std::process::Command::new(&exe)
                 .args(["check", id, "--tier", "quick"])
                 .env("VERIF_HASH_ONLY", "1")
                 .env("VERIF_WORKERS", workers)
+                .env("VERIF_SEED", seed.to_string())
                 .env("VERIF_SCALE", &scale)
                 .env_remove("VERIF_REAL_BIN")
                 .output()
@@ -85,10 +88,10 @@ pub fn determinism_selftest() -> i32 {
             if lines != base || base.is_empty() {
                 bad += 1;
                 let diff = base.iter().zip(lines.iter()).find(|(a, b)| a != b);
-                println!("determinism selftest: {} differs between w1 and {}: {:?}", id, label, diff);
+                println!("determinism selftest: {} seed {} differs between w1 and {}: {:?}", id, seed, label, diff);
             }
         }
-        println!("determinism selftest: {} {} ({} sims, 4 processes, workers 1/4/16/16)", id, if bad == 0 { "identical" } else { "CHECK" }, base.len().saturating_sub(1));
+        println!("determinism selftest: {} seed {} {} ({} sims, 4 processes, workers 1/4/16/16)", id, seed, if bad == 0 { "identical" } else { "CHECK" }, base.len().saturating_sub(1));
     }
     if bad == 0 {
         println!("determinism selftest: all per-sim event-log hashes identical ({} sims x 4 runs)", total_sims);
